@@ -209,9 +209,17 @@ theorem C26_OMPTaskTrans_pinned_counterexample : ¬ C26_OMPTaskTrans_pinned_stat
   revert this
   decide
 
-/-- Fixed code: atomic, for every validate that is not affected by the inlining. -/
-theorem C26_OMPTaskTrans (collapseSet : Bool) (v : TaskState → Bool)
-    (hv : ∀ s, v { s with inlined := true } = v s) : Atomic (ompTaskFixed collapseSet v) := by
+/-- Pinned code, second defect: the loop validates, its calls are inlined, and the re-validation of the inlined
+    loop inside `ParallelLoopTrans.apply` refuses (`v` depends on `inlined`). -/
+theorem C26_OMPTaskTrans_pinned_counterexample_inlining :
+    ¬ Atomic (ompTaskPinned false (fun s => !s.inlined)) := by
+  intro h
+  have := h ⟨false, false, false⟩ (by decide)
+  revert this
+  decide
+
+/-- Fixed code: atomic for EVERY validate (it is also evaluated on the inlined form before anything is changed). -/
+theorem C26_OMPTaskTrans (collapseSet : Bool) (v : TaskState → Bool) : Atomic (ompTaskFixed collapseSet v) := by
   apply C26_atomic_validate_first
   simp only [NoRefuse, validateThen]
   refine ⟨?_, trivial⟩
@@ -219,10 +227,12 @@ theorem C26_OMPTaskTrans (collapseSet : Bool) (v : TaskState → Bool)
   simp only [Bool.and_eq_true, Bool.not_eq_true'] at h0
   refine ⟨?_, ?_, trivial⟩
   · rintro x rfl
-    simp [hv, h0.1, h0.2]
+    simp [h0.1.2, h0.2]
   · rintro x ⟨y, rfl, rfl⟩
     simp [h0.2]
 
+example : run (ompTaskFixed false (fun s => !s.inlined)) ⟨false, false, false⟩ = (⟨false, false, false⟩, .refused) := by
+  decide
 example : run (ompTaskFixed true (fun _ => true)) ⟨false, false, false⟩ = (⟨false, false, false⟩, .refused) := by
   decide
 example : run (ompTaskFixed false (fun _ => true)) ⟨false, false, false⟩ = (⟨true, true, true⟩, .accepted) := by
@@ -348,6 +358,30 @@ example : run (reductionFixed true (fun _ => true) (fun _ => true)) ⟨0, false,
     = (⟨3, true, true⟩, .accepted) := by decide
 example : run (reductionPinned true (fun _ => true) (fun _ => false)) ⟨0, false, false⟩
     = (⟨0, true, false⟩, .refused) := by decide
+
+/-- Pinned code with a `mask=` argument: `x = sum(f(a), mask=m)` is refused by the nested transformation and the
+    statement put back reads `mask=m(:)`. -/
+theorem C26_ArrayReduction_mask_pinned_counterexample :
+    ¬ Atomic (reductionMaskPinned true (fun _ => true) (fun _ => false)) := by
+  intro h
+  have := h ⟨0, false⟩ (by decide)
+  revert this
+  decide
+
+/-- Fixed code (mask expanded on a copy): atomic. -/
+theorem C26_ArrayReduction_mask (v a2l : MaskState → Bool) : Atomic (reductionMaskFixed v a2l) := by
+  intro s hr
+  simp only [reductionMaskFixed, reductionMaskPinned, validateThen, run, Bool.false_eq_true, ↓reduceIte] at hr ⊢
+  by_cases hv : v s = true
+  · by_cases h1 : a2l { s with tree := 1 } = true
+    · simp [hv, h1] at hr
+    · have h1' : a2l { s with tree := 1 } = false := by simpa using h1
+      simp only [hv, h1', Bool.false_eq_true, ↓reduceIte]
+  · simp [hv]
+
+example : run (reductionMaskFixed (fun _ => true) (fun _ => false)) ⟨0, false⟩ = (⟨0, false⟩, .refused) := by decide
+example : run (reductionMaskPinned true (fun _ => true) (fun _ => false)) ⟨0, false⟩ = (⟨0, true⟩, .refused) := by
+  decide
 
 /-! ### ArrayAssignment2LoopsTrans with `verbose` -/
 
